@@ -159,8 +159,17 @@ def run_unit(unit, st, tier):
     if pj is not None:
         st.goal("palindromic-junction")
 
-    def one(scn, nontrivial, outcome="product"):
-        check(st, scn)
+    def one(scn, nontrivial, outcome=None):
+        ok = check(st, scn)
+        if outcome is None:
+            dev = []
+            if any(scn.get("rot") or []):
+                dev.append("rotated")
+            if scn.get("perm") and scn["perm"] != sorted(scn["perm"]):
+                dev.append("permuted")
+            if scn.get("lower"):
+                dev.append("lower-case")
+            outcome = "{}/k={}/{}".format("product" if ok else "violation", k, "+".join(dev) or "canonical")
         st.scenario(outcome, None)
         if nontrivial:
             st.nontrivial += 1
